@@ -485,6 +485,95 @@ def loop_case(c):
             "meta": {"labs": lab, "fam": "loop", "nacts": n, "shared": True}}
 
 
+# ----------------------------------------------------------------------------- sweep over all builtins
+
+SWEEP_SKIP = re.compile(
+    r"^#%|^##|^%|exit|quit|abort|panic|file|director|path|process|command|stdin|stdout|stderr|read|sleep|thread|channel|"
+    r"tcp|http|port|open|close|write|display|print|require|load|eval|emit|opaque|error|assert|breakpoint|inspect|will|"
+    r"gc|memory|lock|mutex|spawn|join|recv|send|wait|time|duration|instant|env|current-|poll|future|async|await|dylib|ffi|"
+    r"call/cc|call-with|dynamic-wind|continuation|interrupt|engine|expand|syntax|module|stream|block|flush|command-line|"
+    r"random|make-|iota|range|repeat|Engine|kill|run!|glob|which|receivers|tls|debug|test-mode|home-location|"
+    r"platform|target-arch|for-each|even-rec|odd-rec|loop")
+
+
+def builtin_names():
+    """Every primitive name registered by the engine's Rust sources (so that a newly added primitive is swept too)."""
+    import glob
+    names = set()
+    root = "/repo/crates/steel-core/src"
+    for path in glob.glob(root + "/**/*.rs", recursive=True):
+        if "/tests/" in path:
+            continue
+        try:
+            text = open(path, errors="replace").read()
+        except OSError:
+            continue
+        names.update(re.findall(r'(?:name|alias)\s*=\s*"([^"\s]+)"', text))
+        names.update(re.findall(r'register_(?:fn|value|native_fn)\(\s*"([^"\s]+)"', text))
+    # functions of the Scheme prelude (built on the primitives; the compiler treats calls to them differently)
+    for path in glob.glob(root + "/scheme/**/*.scm", recursive=True):
+        text = open(path, errors="replace").read()
+        names.update(re.findall(r"\(define\s+\(([^\s()]+)", text))
+    return sorted(n for n in names if not SWEEP_SKIP.search(n) and not re.search(r"[()\[\]{}'`,;|\\]", n))
+
+
+def existing_names(names, work):
+    """Keep the names that are bound to something in a fresh engine."""
+    case = {"id": "sweep-names", "fresh": True, "tag": "", "steps": [{"src": n, "class": "any"} for n in names]}
+    v = vlib.replay([case], work, env_extra=ENVS["nojit"], jobs=1, timeout_ms=20000, name="sweep_names")[0]
+    got = v.get("got") or []
+    return [n for n, g in zip(names, got) if g["class"] == "ok" and (g.get("val") or "").startswith("#<")]
+
+
+def sweep_case(c, prim):
+    q = c["q"]
+    shape = c["shape"]
+    pre0 = ["(define pg@@ #f)"]
+    if c["ty"] == "hash":
+        pre0.append("(define (plt@@ a b) (< (car a) (car b)))")
+    hold = {"LG": "x", "MG": "x", "ME": "(list 0 x)", "MC": "(let ([t x]) (lambda () t))"}[shape]
+    obs = {"LG": "pg@@", "MG": "pg@@", "ME": "(list-ref pg@@ 1)", "MC": "(pg@@)"}[shape]
+    pre0.append(f"(let ([x {c['src']}]) (set! pg@@ {hold}))")
+    defs, steps, labs = [], [], []
+    for k, pat in enumerate(c["pats"]):
+        call = pat.replace("$p", prim).replace("$v", "x")
+        if shape == "LG":
+            body = f"(let ([x {c['src']}]) (set! pg@@ {hold}) (let ([r {call}]) (emit {q.replace('$v', 'x')}) r))"
+        else:
+            body = f"(let ([x {c['src']}]) (set! pg@@ {hold}) {call})"
+        defs.append(f"(define (psw{k}@@) {body})")
+    steps.append({"src": " ".join(pre0), "class": "ok", "emit": []})
+    steps.append({"src": " ".join(defs), "class": "any"})
+    for k, pat in enumerate(c["pats"]):
+        steps.append({"src": f"(psw{k}@@)", "class": "any"})
+        steps.append({"src": f"(emit {q.replace('$v', obs)})", "class": "ok", "emit": [c["exp"]]})
+        labs.append(pat)
+    h = hashlib.sha1(json.dumps([s["src"] for s in steps]).encode()).hexdigest()[:12]
+    return {"id": f"S-{h}", "fresh": False, "tag": f"sweep|ty={c['ty']}|how={c['how']}|shape={shape}|prim={prim}",
+            "steps": steps, "meta": {"labs": labs, "fam": "sweep", "nacts": 1, "shared": True, "prim": prim}}
+
+
+def sweep_failure(case, v):
+    """None (agrees), "inconclusive" (the builtin killed the process / panicked: nothing can be observed), or
+    (tag, why)."""
+    if v["pass"]:
+        return None
+    got = v.get("got") or []
+    if any(re.match(r"hang|crash|panic", g["class"]) for g in got) or len(got) < len(case["steps"]):
+        return "inconclusive"
+    for si, (st, g) in enumerate(zip(case["steps"], got)):
+        if st["class"] == "ok" and si >= 2:
+            pat = case["meta"]["labs"][(si - 3) // 2]
+            call = pat.replace("$p", case["meta"]["prim"])
+            if g["class"] != "ok":
+                return (f"{case['tag']}|at={call}|sym={g['class']}",
+                        f"after {call}: the holder's value cannot be observed any more: {g['class']}: {g.get('msg')}")
+            if g.get("emit") != st["emit"]:
+                return (f"{case['tag']}|at={call}|sym=wrong-value",
+                        f"after {call}: expected {st['emit']} got {g.get('emit')}")
+    return (f"{case['tag']}|at=?|sym=?", v.get("why", "?"))
+
+
 def to_case(c):
     return alias_case(c) if c["fam"] == "alias" else loop_case(c)
 
@@ -541,9 +630,13 @@ ENVS = {
 def judge(r, cases, verdicts, env_name, stats):
     reported = 0
     for c, v in zip(cases, verdicts):
-        bad = failure(c, v)
-        account(r, c, bad is None, nontrivial(c))
+        bad = sweep_failure(c, v) if c["meta"]["fam"] == "sweep" else failure(c, v)
         stats["evaluations"][env_name] = stats["evaluations"].get(env_name, 0) + 1
+        if bad == "inconclusive":
+            # the builtin under sweep killed the process or panicked (robustness, C07): nothing can be observed
+            stats["sweep_inconclusive"][c["meta"]["prim"]] = stats["sweep_inconclusive"].get(c["meta"]["prim"], 0) + 1
+            continue
+        account(r, c, bad is None, nontrivial(c))
         if bad is None:
             c["_passed"] = True
             continue
@@ -629,6 +722,7 @@ def plan(tier, seed):
             ("bin", "bin", {"KEEP1": 400, "KEEP2": 120, "KEEPR": 70}),
             ("threads", "threads", {"KEEP1": 200, "KEEP2": 90, "KEEPR": 35}),
             ("big", "big", {"KEEP1": 150, "KEEP2": 70, "KEEPR": 30}),
+            ("sweep", "sweep", {}),
         ]
     return [
         ("loop", "loop", {"LOOPN": "{5, 40, 70}"}),
@@ -640,12 +734,14 @@ def plan(tier, seed):
         ("bin", "bin", {"KEEP1": 1000, "KEEP2": 200, "KEEPR": 100}),
         ("threads", "threads", {"KEEP1": 300, "KEEP2": 150, "KEEPR": 60}),
         ("big", "big", {"KEEP1": 300, "KEEP2": 100, "KEEPR": 40}),
+        ("sweep", "sweep", {}),
     ]
 
 
 MAIN_ENVS = ["jit", "nojit"]
 SAMPLE_ENVS = ["inline", "nolift", "inline-nojit"]
 SAMPLE_SIZE = {"quick": 300, "thorough": 4000}
+SWEEP_NAMES = {"quick": 24, "thorough": 100000}     # how many builtins (seeded choice) are swept
 
 
 def tlc_producer(tier, seed, work, q):
@@ -668,7 +764,7 @@ def run(tier, seed):
     work = os.path.join(vlib.WORK, PROP)
     r = vlib.Result(PROP, tier, seed)
     stats = {"evaluations": {}, "failing": 0, "by_finding": {}, "unreported_violations": 0, "groups": {},
-             "cases": {}, "observations": 0}
+             "cases": {}, "observations": 0, "sweep_inconclusive": {}, "sweep_builtins": 0}
     q = queue.Queue(maxsize=2)
     threading.Thread(target=tlc_producer, args=(tier, seed, work, q), daemon=True).start()
     rnd = random.Random(seed)
@@ -683,19 +779,31 @@ def run(tier, seed):
             break
         r.add_tlc(res)
         cases, raws = [], []
-        for c in res["cases"]:
-            k = to_case(c)
+        if name == "sweep":
+            names = existing_names(builtin_names(), work)
+            if len(names) < 100:
+                raise vlib.ToolError("sweep: the list of builtins could not be harvested")
+            names = sorted(rnd.sample(names, min(len(names), SWEEP_NAMES[tier])))
+            stats["sweep_builtins"] = len(names)
+            expanded = [(c, sweep_case(c, p)) for c in sorted(res["cases"], key=lambda c: json.dumps(c, sort_keys=True))
+                        for p in names]
+        else:
+            expanded = [(c, to_case(c)) for c in res["cases"]]
+        for c, k in sorted(expanded, key=lambda ck: ck[1]["id"]):
             if k["id"] not in seen:
                 seen.add(k["id"])
                 cases.append(k)
                 raws.append(c)
+        del expanded
         res["cases"] = None
         stats["cases"][name] = len(cases)
-        stats["observations"] += sum(2 * len(c["steps"][1]["emit"]) for c in cases)
+        stats["observations"] += sum(sum(len(st.get("emit") or []) for st in c["steps"]) for c in cases)
         for env in MAIN_ENVS:
-            verdicts = vlib.replay([strip(c) for c in cases], work, env_extra=ENVS[env], jobs=12, timeout_ms=10000,
-                                   name=f"{name}_{env}")
+            verdicts = vlib.replay([strip(c) for c in cases], work, env_extra=ENVS[env], jobs=12,
+                                   timeout_ms=4000 if name == "sweep" else 10000, name=f"{name}_{env}")
             judge(r, cases, verdicts, env, stats)
+        if name == "sweep":
+            continue
         idx = rnd.sample(range(len(cases)), min(len(cases), SAMPLE_SIZE[tier] // 3 + 20))
         pool += [(raws[i], cases[i]) for i in idx]
         for i in idx[:2]:
